@@ -5,7 +5,7 @@ Levels == {"GGA", "MGGA"}
 \* dot index pairs: valid ones (j <= k over -1..1) and two illegal ones
 DotPairs == {<<-1, -1>>, <<-1, 0>>, <<-1, 1>>, <<0, 0>>, <<0, 1>>, <<1, 1>>, <<-2, 0>>, <<0, 2>>}
 NoNLDF == <<>>
-NoSDMX == [kind |-> "none", pows |-> <<>>, nd |-> 0, n1 |-> 0]
+NoSDMX == [kind |-> "none", pows |-> <<>>, nd |-> 0, n1 |-> 0, full |-> <<>>]
 NoFL == [present |-> FALSE, s2 |-> <<>>, nk0 |-> 0, nk1 |-> 0, dots |-> <<>>, nd1 |-> 0, ndd |-> 0]
 Base(nldf) == [sl |-> "npa", nldf |-> nldf, sdmx |-> NoSDMX, fl |-> NoFL]
 N(ver, level, rm, tl, a0ok, l0, l1, dots, js, jp) ==
@@ -36,13 +36,25 @@ DefN == N("j", "MGGA", "one", 3, TRUE, <<>>, <<>>, <<>>, <<"se", "se_ar2">>, <<3
 SLCfgs == {[sl |-> m, nldf |-> n, sdmx |-> NoSDMX, fl |-> NoFL] : m \in {"nst", "npa", "ns", "np", "bogus", "NPA"}, n \in {NoNLDF, DefN}}
 Pows == SeqsUpTo({0, 1, 2}, 3)
 SDMXCfgs ==
-  {[sl |-> "npa", nldf |-> n, sdmx |-> [kind |-> k, pows |-> p, nd |-> nd, n1 |-> n1], fl |-> NoFL] :
+  {[sl |-> "npa", nldf |-> n, sdmx |-> [kind |-> k, pows |-> p, nd |-> nd, n1 |-> n1, full |-> <<>>], fl |-> NoFL] :
       n \in {NoNLDF, DefN}, k \in {"SDMX", "G", "1", "G1"}, p \in Pows \ {<<>>}, nd \in 0..3, n1 \in 0..3}
+\* ---- SDMXFullSettings: one or two ratios (sorted), pows lists that DIFFER between ratios, count patterns incl. an
+\* over-long one (invalid), an untabulated power (3) and an untabulated ratio (3.0)
+FullPowsSet == {<<0, 1>>, <<2, 1>>, <<0, 1, 2>>, <<3, 0>>}
+FullCnts == {<<1, 0, 2, 0>>, <<2, 0, 0, 0>>, <<2, 1, 1, 1>>, <<0, 0, 2, 1>>, <<3, 0, 0, 0>>}
+FullEntry(r, p, c) == [ratio10 |-> r, pows |-> p, cnt |-> c]
+SDMXFullCfgs ==
+  {[sl |-> "npa", nldf |-> NoNLDF, sdmx |-> [kind |-> "Full", pows |-> <<>>, nd |-> 0, n1 |-> 0, full |-> <<FullEntry(r, p, c)>>], fl |-> NoFL] :
+      r \in {10, 15, 20, 30}, p \in FullPowsSet, c \in FullCnts}
+  \cup
+  {[sl |-> "npa", nldf |-> NoNLDF, sdmx |-> [kind |-> "Full", pows |-> <<>>, nd |-> 0, n1 |-> 0,
+                                            full |-> <<FullEntry(r[1], p1, c1), FullEntry(r[2], p2, c2)>>], fl |-> NoFL] :
+      r \in {<<10, 15>>, <<10, 20>>, <<15, 20>>}, p1 \in FullPowsSet, p2 \in FullPowsSet, c1 \in FullCnts, c2 \in FullCnts}
 FLCfgs ==
   {[sl |-> "npa", nldf |-> NoNLDF, sdmx |-> NoSDMX,
     fl |-> [present |-> TRUE, s2 |-> s2, nk0 |-> a, nk1 |-> b, dots |-> d, nd1 |-> c, ndd |-> e]] :
       s2 \in {<<-1>>, <<-1, 1>>, <<0, 1, 2>>}, a \in 0..3, b \in 0..2, d \in SeqsUpTo(DotPairs, 1), c \in 0..2, e \in 0..2}
-QuickCfgs == <<VICfgs(1, 2, 2), VJKCfgs(2), VIJCfgs, BadCfgs, SLCfgs, SDMXCfgs, FLCfgs>>
-FullCfgs == <<VICfgs(2, 2, 2), VJKCfgs(2), VIJCfgs, BadCfgs, SLCfgs, SDMXCfgs, FLCfgs>>
+QuickCfgs == <<VICfgs(1, 2, 2), VJKCfgs(2), VIJCfgs, BadCfgs, SLCfgs, SDMXCfgs, SDMXFullCfgs, FLCfgs>>
+FullCfgs == <<VICfgs(2, 2, 2), VJKCfgs(2), VIJCfgs, BadCfgs, SLCfgs, SDMXCfgs, SDMXFullCfgs, FLCfgs>>
 ASSUME DeclaredMatchesDerived
 ====
